@@ -141,12 +141,12 @@ func buildPathVariables(b catalog.PathVariablesBuilder) (pv *catalog.PathVariabl
 }
 
 func (core *JApiCore) checkPathSchema(s *jschema.JSchema) error {
-	if err := core.checkPathSchemaRoot(s); err != nil {
+	if err := core.checkPathSchemaRoot(s, map[string]struct{}{}); err != nil {
 		return err
 	}
 
 	for i := range s.ASTNode.Children {
-		if err := core.checkPathSchemaProperty(s.ASTNode.Children[i]); err != nil {
+		if err := core.checkPathSchemaProperty(s.ASTNode.Children[i], map[string]struct{}{}); err != nil {
 			return err
 		}
 	}
@@ -154,12 +154,21 @@ func (core *JApiCore) checkPathSchema(s *jschema.JSchema) error {
 	return nil
 }
 
-func (core *JApiCore) checkPathSchemaRoot(s *jschema.JSchema) error {
+// checkPathSchemaRoot follows the references between the user types, seen holds
+// the names of the types which have been followed already: a type can refer to
+// itself ("@a // {nullable: true}" is a valid body of the type @a).
+func (core *JApiCore) checkPathSchemaRoot(s *jschema.JSchema, seen map[string]struct{}) error {
 	if s.ASTNode.TokenType == schema.TokenTypeShortcut {
 		typeName := s.ASTNode.SchemaType
 		if typeName == "mixed" {
 			return errors.New(jerr.PathOrErr)
 		}
+
+		if _, ok := seen[typeName]; ok {
+			// The chain of references comes back to this type: there is no object.
+			return errors.New(jerr.PathObjectErr)
+		}
+		seen[typeName] = struct{}{}
 
 		ut, ok := core.catalog.UserTypes.Get(typeName)
 		if !ok {
@@ -172,7 +181,7 @@ func (core *JApiCore) checkPathSchemaRoot(s *jschema.JSchema) error {
 			return errors.New(jerr.PathObjectErr)
 		}
 
-		return core.checkPathSchemaRoot(es.JSchema)
+		return core.checkPathSchemaRoot(es.JSchema, seen)
 	}
 
 	if s.ASTNode.TokenType != schema.TokenTypeObject {
@@ -234,7 +243,7 @@ func (core *JApiCore) checkPathSchemaPropertyInAllOf(typeName string) error {
 	return nil
 }
 
-func (core *JApiCore) checkPathSchemaProperty(an schema.ASTNode) error {
+func (core *JApiCore) checkPathSchemaProperty(an schema.ASTNode, seen map[string]struct{}) error {
 	if an.TokenType == schema.TokenTypeObject || an.TokenType == schema.TokenTypeArray {
 		return fmt.Errorf("%s (%s)", jerr.PathMultiLevelPropertyErr, an.Key)
 	}
@@ -244,7 +253,7 @@ func (core *JApiCore) checkPathSchemaProperty(an schema.ASTNode) error {
 		for _, v := range rule.Items {
 			switch v.TokenType {
 			case schema.TokenTypeShortcut:
-				if err := core.checkPathSchemaPropertyUserType(v.Value); err != nil {
+				if err := core.checkPathSchemaPropertyUserType(v.Value, seen); err != nil {
 					return err
 				}
 			case schema.TokenTypeObject:
@@ -257,7 +266,7 @@ func (core *JApiCore) checkPathSchemaProperty(an schema.ASTNode) error {
 			}
 		}
 	} else if an.TokenType == schema.TokenTypeShortcut {
-		if err := core.checkPathSchemaPropertyUserType(an.Value); err != nil {
+		if err := core.checkPathSchemaPropertyUserType(an.Value, seen); err != nil {
 			return err
 		}
 	}
@@ -265,7 +274,13 @@ func (core *JApiCore) checkPathSchemaProperty(an schema.ASTNode) error {
 	return nil
 }
 
-func (core *JApiCore) checkPathSchemaPropertyUserType(typeName string) error {
+func (core *JApiCore) checkPathSchemaPropertyUserType(typeName string, seen map[string]struct{}) error {
+	if _, ok := seen[typeName]; ok {
+		// The type has been checked already (the types can refer to each other).
+		return nil
+	}
+	seen[typeName] = struct{}{}
+
 	ut, ok := core.catalog.UserTypes.Get(typeName)
 	if !ok {
 		return fmt.Errorf(`%s (%s)`, jerr.UserTypeNotFound, typeName)
@@ -281,7 +296,7 @@ func (core *JApiCore) checkPathSchemaPropertyUserType(typeName string) error {
 		return errors.New(jerr.RuntimeFailure)
 	}
 
-	if err := core.checkPathSchemaProperty(rootNode); err != nil {
+	if err := core.checkPathSchemaProperty(rootNode, seen); err != nil {
 		return err
 	}
 
